@@ -134,11 +134,20 @@ impl Driver {
             "ksmul" => vec![point_hex(&(point_of_hex(a[1])? * scalar_of_hex(a[0])))],
             "kgen" => vec![point_hex(&ProjectivePoint::GENERATOR)],
             "kid" => vec![point_hex(&ProjectivePoint::IDENTITY)],
-            "kdec" => match point_of_hex(a[0]) {
-                // the protocol messages use 33-byte encodings; the 1-byte identity encoding is not decodable there
-                Some(p) if unhx(a[0]).len() == 33 => vec!["1".into(), point_hex(&p)],
-                _ => vec!["0".into()],
-            },
+            "kdec" => {
+                // decode_point of the code = GroupEncoding::from_bytes on 33 bytes (33 zero bytes decode to the identity)
+                let b = unhx(a[0]);
+                if b.len() != 33 {
+                    vec!["0".into()]
+                } else {
+                    let mut repr = <ProjectivePoint as GroupEncoding>::Repr::default();
+                    AsMut::<[u8]>::as_mut(&mut repr).copy_from_slice(&b);
+                    match Option::<ProjectivePoint>::from(ProjectivePoint::from_bytes(&repr)) {
+                        Some(p) => vec!["1".into(), point_hex(&p)],
+                        None => vec!["0".into()],
+                    }
+                }
+            }
             "sha256" => {
                 use sha2::{Digest, Sha256};
                 vec![hx(&Sha256::digest(unhx(a[0])))]
